@@ -50,7 +50,9 @@ def run_case(case):
     ctx = G.execute(case, linear_faults=lf)
     if ctx.setup_error is not None:
         return {"outcome": "setup:" + type(ctx.setup_error).__name__, "key": None, "violations": [], "stats": {}}
-    viol = M.mon_c15(ctx.rec, ctx.F, ctx.weights, ctx.params, case["cfg"]["control"])
+    # the one-step comparison applies to the plain (non-globalized) Newton variants with a direct linear solver
+    viol = M.mon_c15(ctx.rec, ctx.F, ctx.weights, ctx.params, case["cfg"]["control"],
+                     fixed_check=case["cfg"]["newton"] != "Globalized")
     rej = sum(1 for t in ctx.rec.trials if not t.accepted)
     return {"outcome": outcome_of(ctx.rec),
             "key": f"{case['spec']['tag']}|{G.cfg_key(case['cfg'])}|{case['cfg']['params']['lamb_max']}|{case.get('fault')}" if rej else None,
